@@ -11,7 +11,7 @@ import sys
 
 VERIF = os.path.dirname(os.path.dirname(os.path.abspath(__file__)))
 REPO = os.environ.get("VERIF_REPO", "/repo")
-OUT = os.path.join(VERIF, "lean", "Generated", "LeafFns.lean")
+OUT = os.environ.get("C2LEAN_OUT") or os.path.join(VERIF, "lean", "Generated", "LeafFns.lean")
 
 # (source file, function); callees before callers
 TARGETS = [
@@ -30,6 +30,12 @@ TARGETS = [
     ("lib/mergefiles.c", "first_definition"),
     ("lib/helpers.c", "getFromGroupList"),
     ("lib/helpers.c", "find_key"),
+    # the copying half of the merge: struct values, (re)allocation of word arrays
+    ("lib/helpers.c", "setGroupList"),
+    ("lib/helpers.c", "cpy_file_entry"),
+    ("lib/mergefiles.c", "insert_nogroup"),
+    ("lib/mergefiles.c", "merge_existing_groups"),
+    ("lib/mergefiles.c", "add_new_groups"),
 ]
 
 # struct types whose members become word slots (one per member, in declaration order)
@@ -136,6 +142,11 @@ def layout(path, rec):
     return _layouts[(path, rec)]
 
 
+def vty(node):
+    """type of a value as the interpreter sees it: a struct value is handled through a pointer to its words"""
+    return "ptr" if record_of(clean_type(node)) else ty_of(node)
+
+
 def ty_of(node):
     q = clean_type(node)
     if q.endswith("*"):
@@ -161,6 +172,7 @@ class FnTr:
         self.done = done            # name -> translated Fn text pieces (for inlining)
         self.vars = {}              # decl id -> index
         self.byval = {}             # decl id of a parameter of struct type passed by value -> struct name
+        self.structlocal = {}       # decl id of a local variable of struct type -> struct name (the variable holds a pointer to its words)
         self.nparams = 0
         for c in decl.get("inner", []):
             if c.get("kind") == "ParmVarDecl":
@@ -176,7 +188,7 @@ class FnTr:
         self.body_node = next(c for c in decl["inner"] if c.get("kind") == "CompoundStmt")
         self.ret_ty = None
         rt = decl.get("type", {}).get("qualType", "")
-        self.ret_ty = "ptr" if rt.split("(")[0].strip().endswith("*") else None
+        self.ret_ty = "ptr" if (rt.split("(")[0].strip().endswith("*") or record_of(rt.split("(")[0].replace("const ", "").strip())) else None
         if self.ret_ty is None:
             base = rt.split("(")[0].strip()
             if base != "void":
@@ -231,7 +243,7 @@ class FnTr:
             return self.addr(self.inner(n)[0])
         if k == "DeclRefExpr":
             d = n["referencedDecl"]
-            if d.get("id") in self.byval:
+            if d.get("id") in self.byval or d.get("id") in self.structlocal:
                 return "(.load (.var %d) .ptr)" % self.vars[d["id"]]
             raise Unsupported("struct variable %s" % d.get("name"))
         if k == "UnaryOperator" and n.get("opcode") == "*":
@@ -243,6 +255,25 @@ class FnTr:
                 raise Unsupported("address of an element of type %s" % clean_type(n))
             return "(.sidx %s %s %d)" % (self.expr(base), self.expr(idx), len(layout(self.path, rec)))
         raise Unsupported("address of %s" % k)
+
+    def conjuncts(self, n):
+        while n.get("kind") == "ParenExpr":
+            n = self.inner(n)[0]
+        if n.get("kind") == "BinaryOperator" and n.get("opcode") == "&&":
+            a, b = self.inner(n)
+            return self.conjuncts(a) + self.conjuncts(b)
+        return [n]
+
+    def has_user_call(self, n):
+        if not isinstance(n, dict):
+            return False
+        if n.get("kind") == "CallExpr":
+            try:
+                if self.callee_name(n) in self.done:
+                    return True
+            except Unsupported:
+                pass
+        return any(self.has_user_call(c) for c in n.get("inner", []) if c)
 
     def guarded(self, n):
         """an expression that is not always evaluated exactly once: no hoisted calls inside"""
@@ -317,6 +348,8 @@ class FnTr:
             ck = n.get("castKind")
             sub = self.inner(n)[0]
             if ck == "LValueToRValue":
+                if record_of(clean_type(n)):
+                    return self.addr(sub)          # a struct value: the pointer to its words
                 return "(.load %s .%s)" % (self.lval(sub), ty_of(n))
             if ck == "NullToPointer":
                 return ".null"
@@ -366,6 +399,25 @@ class FnTr:
         if k == "ConditionalOperator":
             c, a, b = self.inner(n)
             return "(.cond %s %s %s)" % (self.expr(c), self.guarded(a), self.guarded(b))
+        if k == "UnaryExprOrTypeTraitExpr" and n.get("name") == "sizeof" and n.get("argType"):
+            # sizes of word objects are counted in words (one per struct member, one per pointer); `char` counts bytes
+            q = clean_type({"type": n["argType"]})
+            rec = record_of(q)
+            if rec:
+                return "(.lit %d .u64)" % len(layout(self.path, rec))
+            if q.endswith("*") or q == "char":
+                return "(.lit 1 .u64)"
+            raise Unsupported("sizeof(%s)" % q)
+        if k == "CallExpr" and self.callee_name(n) == "realloc":
+            a0 = self.inner(n)[1]
+            src = a0
+            while src.get("kind") in ("ImplicitCastExpr", "CStyleCastExpr", "ParenExpr") and src.get("castKind") in ("BitCast", "NoOp", None):
+                src = self.inner(src)[0]
+            q = clean_type(src)
+            if not q.endswith("*") or q[:-1].strip() in ("char", "unsigned char", "void"):
+                raise Unsupported("realloc of %s" % q)
+            args = [self.expr(a) for a in self.inner(n)[1:]]
+            return "(.call \"realloc_words\" %s)" % args_term(args)
         if k == "CallExpr":
             name = self.callee_name(n)
             if name in BUILTINS:
@@ -378,7 +430,7 @@ class FnTr:
                 if self.no_hoist:
                     raise Unsupported("call of %s in a conditionally or repeatedly evaluated expression" % name)
                 t = self.new_temp()
-                ty = ty_of(n)
+                ty = vty(n)
                 self.pending += self.user_call(n, "(.var %d)" % t, ty)
                 return "(.load (.var %d) .%s)" % (t, ty)
             raise Unsupported("call of %s inside an expression" % name)
@@ -408,8 +460,8 @@ class FnTr:
         for a in self.inner(n)[1:]:
             if self.is_user_call(a):
                 t = self.new_temp()
-                pre += self.user_call(a, "(.var %d)" % t, ty_of(a))
-                args.append("(.load (.var %d) .%s)" % (t, ty_of(a)))
+                pre += self.user_call(a, "(.var %d)" % t, vty(a))
+                args.append("(.load (.var %d) .%s)" % (t, vty(a)))
             else:
                 args.append(self.expr(a))
         d = "none" if dst is None else "(some %s)" % dst
@@ -434,6 +486,15 @@ class FnTr:
                     raise Unsupported("declaration %s" % v.get("kind"))
                 if v.get("storageClass") == "static":
                     raise Unsupported("static local %s" % v.get("name"))
+                rec = record_of(clean_type(v))
+                if rec:
+                    if self.inner(v):
+                        raise Unsupported("initialiser of the struct variable %s" % v.get("name"))
+                    self.vars[v["id"]] = len(self.vars)
+                    self.structlocal[v["id"]] = rec
+                    out.append("(.expr (.assign (.var %d) (.call \"alloca_words\" (.cons (.lit %d .u64) .nil)) .ptr))" % (
+                        self.vars[v["id"]], len(layout(self.path, rec))))
+                    continue
                 ty = ty_of(v)
                 self.vars[v["id"]] = len(self.vars)
                 idx = self.vars[v["id"]]
@@ -448,6 +509,14 @@ class FnTr:
             return out
         if k == "IfStmt":
             parts = self.inner(n)
+            if len(parts) == 2 and self.has_user_call(parts[0]) and len(self.conjuncts(parts[0])) > 1:
+                # if (A && f(x) && ...) S  without else  =  if (A) if (f(x)) ... S : every conjunct is evaluated at most once and
+                # only when the ones before it hold, so a call of a translated function among them can be performed where it stands
+                body = self.stmts(parts[1])
+                for cj in reversed(self.conjuncts(parts[0])):
+                    pre, c = self.top(cj)
+                    body = pre + ["(.ite %s %s .skip)" % (c, seq(body))]
+                return body
             pre, c = self.top(parts[0])
             a = seq(self.stmts(parts[1]))
             b = seq(self.stmts(parts[2])) if len(parts) > 2 else ".skip"
@@ -484,12 +553,28 @@ class FnTr:
                 return self.user_call(parts[0], "(.var %d)" % t, ty) + ["(.ret (some (.load (.var %d) .%s)))" % (t, ty)]
             pre, e = self.top(parts[0])
             return pre + ["(.ret (some %s))" % e]
+        # assignment of a struct value: the words are copied
+        if k == "BinaryOperator" and n.get("opcode") == "=" and record_of(clean_type(self.inner(n)[0])):
+            a, b = self.inner(n)
+            rec = record_of(clean_type(a))
+            nwords = len(layout(self.path, rec))
+            if self.is_user_call(b):
+                t = self.new_temp()
+                pre = self.user_call(b, "(.var %d)" % t, "ptr")       # the callee's struct, through a pointer to its words
+                src = "(.load (.var %d) .ptr)" % t
+            else:
+                pre, src = self.top(b)
+            pre2, dst = [], None
+            assert not self.pending
+            dst = self.addr(a)
+            pre2, self.pending = self.pending, []
+            return pre + pre2 + ["(.expr (.call \"copy_words\" (.cons %s (.cons %s (.cons (.lit %d .u64) .nil)))))" % (dst, src, nwords)]
         # expression statement
         if self.is_user_call(n):
             return self.user_call(n, None, None)
         if k == "BinaryOperator" and n.get("opcode") == "=" and self.is_user_call(self.inner(n)[1]):
             a, b = self.inner(n)
-            return self.user_call(b, self.lval(a), ty_of(a))
+            return self.user_call(b, self.lval(a), vty(a))
         pre, e = self.top(n)
         return pre + ["(.expr %s)" % e]
 
